@@ -8,6 +8,8 @@ mod c06;
 mod c07;
 mod c11;
 mod c12;
+mod c14;
+mod c15;
 mod modgen;
 mod refgraph;
 mod gram;
@@ -40,6 +42,8 @@ fn main() {
                 "C11" => c11::run(&args, &mut rec),
                 "C12" => c12::run(&args, &mut rec),
                 "C13" => c13::run(&args, &mut rec),
+                "C14" => c14::run(&args, &mut rec),
+                "C15" => c15::run(&args, &mut rec),
                 "smoke" => smoke::run(&args, &mut rec),
                 "load" => {
                     let path = args.extra.get("file").expect("--file");
